@@ -44,6 +44,44 @@ def run(chk, repo):
     section(chk, repo)
     inprocess(chk, repo)
     creation(chk, repo)
+    counter_use(chk, repo)
+    from . import c23
+    chk.doc("R15.9", "the shared counter file lives as long as any "
+                     "participant (shared with C23)")
+    c23.shared_files(chk, repo, "R15.9")
+
+
+def counter_use(chk, repo):
+    """R15.8: a counter value is taken for exactly the message that is
+    written: nothing that can fail or be cancelled lies between
+    next_counter() and the mailbox write that carries it"""
+    chk.doc("R15.8", "next_counter() is consumed by the write of the same "
+                     "message")
+    sym = "ebpfcat.ethercat.Terminal.mbx_send"
+    f = repo.func(sym)
+    cfg = CFG(f, raises="await")
+    ncs = [n for n in cfg.nodes if n.expr is not None and n.kind != "with_exit"
+           and find("$l.next_counter()", n.expr)]
+    need(len(ncs) == 1, f"{sym}: expected one use of next_counter()")
+    nc = ncs[0]
+    wr = [n for n in cfg.nodes if n.expr is not None and find(
+        "self.write(self.mbx_out_off, $*a, $**)", n.expr)]
+    need(wr, f"{sym}: the mailbox write was not found")
+    w = wr[0]
+    between = []
+    if nc is not w:
+        for n in cfg.reach_edges(nc, lambda a, b, lab: a is not w):
+            if n is w or n is nc or n.expr is None:
+                continue
+            if any(isinstance(x, ast.Await) for x in walk_expr(n.expr)):
+                between.append(n)
+    chk.ob("R15.8", sym, "no await between next_counter() and the mailbox "
+           "write", not between, between[0].expr if between else nc.expr,
+           f"`{unparse(between[0].expr)[:50]}` can fail (working counter 0) "
+           f"or be cancelled after the counter was advanced: the exchange "
+           f"never sends a message with that value and the next mail skips "
+           f"it" if between else "the counter is taken in the argument list "
+           "of the write itself")
 
 
 def lock_graph(chk, repo):
@@ -226,10 +264,25 @@ def section(chk, repo):
     cfg2 = CFG(ex)
     wr = [n for n in cfg2.nodes if n.expr is not None and find(
         "os.pwrite($fd, bytes((self.counter,)), self.no)", n.expr)]
-    un = [n for n in cfg2.nodes if n.expr is not None and [
-        c for c, b in find("fcntl.lockf($fd, $flags, 1, self.no)", n.expr)
-        if "LOCK_UN" in unparse(b["flags"])]]
+    def unlocks(n):
+        if n.expr is None:
+            return []
+        return [c for c, b in find("fcntl.lockf($fd, $flags, $*rest)", n.expr)
+                if "LOCK_UN" in unparse(b["flags"])]
+    un = [n for n in cfg2.nodes if unlocks(n)]
     need(wr and un, "ParallelMailboxLock.__aexit__: pwrite/unlock not found")
+    lock_args = [tuple(unparse(a) for a in lockcalls(n, "LOCK_EX")[0].args[2:])
+                 for n in locks]
+    for n in un:
+        c = unlocks(n)[0]
+        rng = tuple(unparse(a) for a in c.args[2:])
+        chk.ob("R15.4", ci.qualname + ".__aexit__", "releases exactly the "
+               "byte range it locked", all(rng == la for la in lock_args), c,
+               f"locked range {lock_args}, released range {rng or '(whole file)'}"
+               f": releasing more drops the locks this process holds for "
+               f"*other* terminals whose exchange is still in flight (POSIX "
+               f"record locks are per process), and another process then "
+               f"enters and repeats their counter")
     okw = cfg2.must_pass(cfg2.entry, lambda n: n in wr, targets=[cfg2.exit])
     oku = cfg2.must_pass(cfg2.entry, lambda n: n in un, targets=[cfg2.exit])
     chk.ob("R15.4", ci.qualname + ".__aexit__", "the counter is written back "
